@@ -71,6 +71,70 @@ CHECKS = {
              'temp files and every process() result compared with the model.',
         design='3/C16',
         note=BASE_TRUST),
+    'C03': dict(
+        technique='TLA+ model (PortSelection.tla) with C03Law as TLC invariant; exhaustive replay of every enumerated '
+                  '(selections, port sets) case through PortSelect/PortsSemanticsCfg/PortsCfg/match/Builder.build; TLC trace '
+                  'validation of random larger configurations',
+        text='PortSelection.tla has one operator per validation point of the code (PortsSemanticsCfg, PortsCfg, match, '
+             'exposure) in code order, the five must-reject situations of the statement as MustReject, and Assignment; '
+             'C03Law is a TLC invariant over every pair of selections (wildcards, all non-empty subsets of 3 names + an '
+             'unknown name + a name of the opposite side) per side x every provides/requires/injected port set; every case '
+             'is configured and built on a generated component with exactly those ports.',
+        design='3/C03',
+        note=BASE_TRUST + 'Naming an injected port is accepted (never exposed); rejections beyond the five listed situations '
+             '(equal wildcards) are allowed either way.'),
+    'C07': dict(
+        technique='TLA+ model (Scoping.tla Resolve + ShellStructure.tla) with C07Law as TLC invariant; exhaustive replay of '
+                  'enumerated name-clash environments through Builder.build, comparing the bound declaration; TLC trace '
+                  'validation of every find_fqn call the builder makes',
+        text='ShellStructure.tla resolves the three referring sites (port type from the encapsulee scope, parameter type and '
+             'claim-reply enum from the interface scope) with Resolve over the scope chain; TLC enumerates every subset of '
+             '5 scopes declaring the name, a same-named declaration of another kind, 5 spellings and 3 referring scopes per '
+             'site (two interfaces in different namespaces for parameter types); build must succeed iff exactly one '
+             'declaration of the right kind is on the chain, and the generated shell must be bound to that one.',
+        design='3/C07',
+        note=BASE_TRUST + 'Binding is read from Builder._recipe and the generated lambda signatures at this level; the compiled '
+             'level (distinct C++ types) belongs to the C++ checks.'),
+    'C08': dict(
+        technique='TLA+ trace specification (BuildHistory.tla/BuildHistoryTrace.tla) that infers the function (model, '
+                  'configuration) -> output from build events recorded in child interpreters with different PYTHONHASHSEED, '
+                  'set construction orders and builder reuse; scenario space enumerated by TLC (BuildHistoryMC.tla)',
+        text='Every build event carries (key = document + configuration content, output digest, md5 check); the environment '
+             '(hash seed, set construction order, process, builder instance) is deliberately not part of the key; TLC '
+             'rejects the first event that makes the inferred F a relation. TLC enumerates the 56 configurations naming 2-3 '
+             'ports explicitly; each is built under 8/32 seeds x up to 6 construction orders.',
+        design='3/C08',
+        note=BASE_TRUST + 'MD5 is recomputed with hashlib (outside TLA+) and logged as a boolean the trace spec requires.'),
+    'C12': dict(
+        technique='TLC enumerates all build histories (BuildHistoryMC.tla); each is executed in one interpreter with deep '
+                  'input digests; events plus fresh-process reference events are validated by BuildHistoryTrace.tla',
+        text='Histories of <=2/3 builds over shared/distinct parsed models x 8 configurations (valid, multi-client, refused at '
+             'construction, refused by build, two prefixes with colliding file names) x shared/fresh Builder; the trace spec '
+             'requires unchanged input digests, outputs equal to the function inferred from fresh-process builds, and '
+             'support files equal to stand-alone generation.',
+        design='3/C12',
+        note=BASE_TRUST + '"Observably unchanged" = equal deep structural digest.'),
+    'C13': dict(
+        technique='TLA+ model of the build decision (ShellStructure.tla BuildOutcome) with C13Law as TLC invariant; every '
+                  'valid family member and every single-fault variation replayed through Builder.build under a watchdog; '
+                  'TLC trace validation (ShellTrace.tla) of random models x random configurations',
+        text='BuildOutcome is a total function to Ok or a named error (encapsulee, port type none/wrong-kind/ambiguous, '
+             'selection, unassigned, multi-client x7, formal types only for ports routed through the dispatcher); TLC evaluates '
+             'it on 36 valid bases x 24 fault kinds; the real build must succeed with exactly the 8 expected file names or fail '
+             'by a raise statement inside dznpy with a library error type; random models are judged by the same operator in '
+             'trace mode.',
+        design='3/C13',
+        note=BASE_TRUST + 'Lenient reading: a worded ValueError/TypeError raised deliberately by dznpy counts as diagnosed.'),
+    'C19': dict(
+        technique='TLA+ comment model (TextBlock.tla IsComment, Indent.tla) with CommentLaw/RenderReadOnly checked by TLC; '
+                  'exhaustive replay into cpp_gen.Comment; TLC trace validation; build-level part via BuildHistoryTrace.tla '
+                  '(non-comment output as an inferred function of the configuration without copyright/creator)',
+        text='Every content value and every create/append/+=/render history is rendered by the real Comment and compared with '
+             'the model; for builds, copyright/creator variants (all line-break characters, */, #include, };) must leave the '
+             'non-comment lines of all eight files unchanged.',
+        design='3/C19',
+        note=BASE_TRUST + 'A comment line is a line starting with //; Comment + x and explicit indent() on a Comment are outside '
+             'the statement.'),
 }
 
 NOT_YET = {}
